@@ -81,6 +81,11 @@ class Check(Property):
             if len({k for k, _ in dst}) < len(dst):
                 continue
             out.append(conv(src, dst, rng.choice(mags), auto=rng.random() < 0.5))
+        # the same non-multiplicative unit power on both sides (refused in every mode)
+        for _ in range(150 if self.tier == "quick" else 1500):
+            a, b = rng.choice(temps), rng.choice(temps)
+            e = rng.choice(["2/1", "-1/1", "1/2", "3/1", "-2/1"])
+            out.append(conv([[a, e]], [[b, e]], rng.choice(mags), auto=rng.random() < 0.6))
         # operator table
         fs = ["add", "sub", "mul", "div", "eq", "lt", "floordiv", "mod"]
         for _ in range(1200 if self.tier == "quick" else 12000):
